@@ -38,7 +38,7 @@ pub fn find_fn<'a>(file: &'a syn::File, path_in: &str) -> Result<FnRef<'a>, Stri
         None => (path_in, None),
     };
     let mut found: Vec<FnRef<'a>> = Vec::new();
-    if let Some(rest) = path.strip_prefix("trait ") {
+    if let Some(rest) = path.strip_prefix("trait ").or_else(|| path.strip_prefix("trait:")) {
         let (tr, name) = rest.split_once("::").ok_or(format!("bad trait path {path}"))?;
         for it in &file.items {
             if let Item::Trait(t) = it {
